@@ -32,7 +32,8 @@ CLAIMED["C04"] = ("DESIGN.md §4 C04",
 CLAIMED["C18"] = ("DESIGN.md §4 C18",
     "Every string of up to 3 arbitrary Unicode scalar values is tokenized symbolically by the real "
     "Tokenizer: z3 shows the only escaping exception is TokenizerError and the token texts concatenate to the input; quoted "
-    "strings over a 8-symbol alphabet up to length 5 are never split.",
+    "strings over a 8-symbol alphabet up to length 5 and quoted names / quoted ranges (escaped quotes in any end point) over "
+    "the alphabet ' : a of length 7 (8 with space, thorough) are never split; formulas rendered by the reader's own handlers are accepted.",
     "trusted: pysym, regex alphabet-partition model, float(str) outcome model; outside: longer strings, fixture formulas; reader output limited to string+integer+reference operands, one operator, one function")
 CLAIMED["C11"] = ("DESIGN.md §4 C11",
     "Row/column arguments are unbounded symbolic ints: z3 shows Table.cell, write, set_cell_style (through "
@@ -80,17 +81,22 @@ CLAIMED["C14"] = ("DESIGN.md §4 C14",
     "Each numeric date/time directive of the real DATETIME_FIELD_MAP is rendered for symbolic clock fields (all hours, "
     "minutes, seconds, microseconds) and symbolic calendar fields (all valid dates of years 1000..9999): z3 shows the "
     "text has the documented width and denotes the field; the real format scanner equals a reference scanner on every "
-    "format string of <= 3/4 arbitrary characters; whole-second durations read back unit by unit for all unit pairs and styles.",
-    "trusted: pysym, exact-integer datetime/strftime model (C locale), lemma cut for int(d/k); outside: names, W/ww/F, "
-    "sub-second durations, automatic units")
+    "format string of <= 3/4 arbitrary characters; durations read back unit by unit equal the duration truncated to the "
+    "smallest unit: whole seconds for all unit pairs and styles, and millisecond-resolution durations (0..10^7 ms quick, "
+    "0..10 years thorough) incl. the millisecond unit and automatic units, on an IEEE-754 error-enclosure model of the floats.",
+    "trusted: pysym, exact-integer datetime/strftime model (C locale), lemma cut for int(d/k), binary64 round-to-nearest "
+    "enclosure (forward error analysis in linear real/integer arithmetic: sound over-approximation); outside: names, W/ww, "
+    "durations that are not whole milliseconds, negative durations")
 
 CLAIMED["C01"] = ("DESIGN.md §4 C01",
     "Record-level write/read: the real Cell._from_value -> _to_buffer -> _from_storage (incl. decimal128 pack/unpack) is "
     "executed for every int |n|<10^15, every float given by 1..15 symbolic significant digits at each decimal exponent "
-    "-290..289 (quick: every 10th + boundaries), both bools, whole-second datetimes of years 1..9999 and durations within "
-    "+-100 years: z3 shows the decoded value equals the written one exactly (rational equality => equal doubles).",
+    "-290..289 (quick: every 10th + boundaries), both bools, whole-second datetimes of years 1..9999, every microsecond "
+    "date-time 1900..2100 and every duration within +-100 years at microsecond resolution: z3 shows the decoded value equals "
+    "the written one exactly (rational equality => equal doubles; sub-second values through the IEEE-754 enclosure model).",
     "trusted: pysym; repr/Decimal digit contract; int/int division correctly rounded; sigfig identity on <=15 digits; string "
-    "table stub; outside: tiles/protobuf/snappy/zip/reopen, sub-second dates and durations, text characters")
+    "table stub; binary64 round-to-nearest enclosure + CPython's timedelta(seconds=float) algorithm; outside: "
+    "tiles/protobuf/snappy/zip/reopen, sub-second date-times outside 1900..2100, text characters")
 
 CLAIMED["C02"] = ("DESIGN.md §4 C02",
     "Per-record re-save fix-point on the real codec: for 116 symbolic record bytes of each storable kind carrying only "
@@ -102,7 +108,8 @@ CLAIMED["C02"] = ("DESIGN.md §4 C02",
 CLAIMED["C16"] = ("DESIGN.md §4 C16",
     "The real row_height/col_width readers and recalculate_row_headers/recalculate_column_headers writers are run as a "
     "read-write-reopen cycle (1..3 times) over header records with symbolic stored sizes 1..10000 points, borders of width "
-    "0/1/3, queried or not, set through the API or not: z3 shows sizes come back equal (known finding: drift with borders "
+    "0/1/3, queried or not, set through the API or not, the sized column with cells of its own or completely covered by a "
+    "merge: z3 shows sizes come back equal and every row/column keeps its header record (known finding: drift with borders "
     ">= 2); header-count setters reject every int outside 0..min(size,5) without change.",
     "trusted: pysym, exact half-integer float model; header records are attribute bags; outside: names, captions, "
     "visibility, coordinates, non-integral stored sizes")
@@ -115,42 +122,60 @@ CLAIMED["C07"] = ("DESIGN.md §4 C07",
     "trusted: pysym; protobuf records and the object store are attribute bags, other save steps are no-op stubs; outside: "
     "reference closure, package metadata listing, re-openability by Numbers")
 
-CLAIMED["C13"] = ("DESIGN.md §4 C13 (partial)",
-    "Decorations only decorate: the real _format_decimal/_format_currency run with the rounding step (sigfig) replaced by "
-    "a stub returning symbolic digit strings; z3 shows that for every digit string, negative style, separator setting, "
-    "decimals, percent, accounting layout and currency code the output minus its decorations is exactly those digits and "
-    "the sign is shown exactly once. That the digits are the correctly rounded value is NOT claimed.",
-    "trusted: pysym; sigfig contract stub (active natively too); outside: numeric correctness of rounding, scientific, "
-    "base, fraction and custom formats")
+CLAIMED["C13"] = ("DESIGN.md §4 C13",
+    "Number bases: the real _format_base/_twos_complement output, read back in its base by an independent reader, equals the "
+    "value for every integer |n| <= 2^40 (sign-and-magnitude, bases 2..36, zero padding), every n + k/4 (rounded to a "
+    "neighbour) and every negative n > -10^15 in two's complement (bases 2/8/16, smallest width >= 32 bits). Fractions: the "
+    "real _format_fraction on every multiple of 1/16 (fixed denominators) and of 1/8 (n-digit accuracies) reads back as the "
+    "value rounded to the shown denominator, sign and whole part kept. Scientific: the real _format_scientific on every float "
+    "of 1..15 significant digits reads back as the value rounded to places+1 digits in d.dddE+XX form. Decimal/currency: "
+    "separators, negative styles, symbols, accounting layout and percent only decorate the digits the rounding step produced.",
+    "trusted: pysym; sigfig contract stub for decimal/currency (that its digits are the correctly rounded value is not claimed "
+    "there); math.log2 thresholds taken from the running interpreter; float.__format__ '.NE' = correctly rounded decimal "
+    "(documented), exact decimal ties explored both ways; Fraction.limit_denominator contract on multiples of 1/8; outside: "
+    "custom number patterns, star ratings, fractions of values not representable with the allowed denominator")
 
 CLAIMED["C05"] = ("DESIGN.md §4 C05",
     "Container arithmetic of the real IWACompressedChunk.to_buffer / _decompress_all / is_iwa_file with the uncompressed "
     "stream an opaque buffer of SYMBOLIC length (0..131073 quick, 0..262145 thorough) and payload lengths symbolic: every "
     "frame has marker 0x00, a 3-byte length equal to its payload, at most 65536 data bytes, frames' data concatenates to "
-    "the stream; decoding k<=3 frames of symbolic lengths returns the per-frame data in order.",
-    "trusted: pysym rope model; snappy contract stub (compress bound, uncompress inverse); outside: protobuf/snappy bytes, "
-    "segment layer (ArchiveInfo parsing), fixture archives, unknown-field preservation")
+    "the stream; decoding k<=3 frames of symbolic lengths returns the per-frame data in order. Segment layer: the real "
+    "IWAArchiveSegment.to_buffer/from_buffer with header and message sizes symbolic in 0..2^21 (all varint widths): the "
+    "length prefix decodes to the header size, recorded message lengths equal the message sizes, decoding returns the same "
+    "header, messages and remainder (protobuf's pure-Python varint helpers interpreted from their source).",
+    "trusted: pysym rope model; snappy contract stub (compress bound, uncompress inverse); ArchiveInfo/message records as "
+    "attribute bags with opaque serialised forms; outside: protobuf/snappy bytes, fixture archives, unknown-field preservation")
 
 CLAIMED["C09"] = ("DESIGN.md §4 C09",
     "The real node_to_ref -> CellRange.__str__ -> xl_rowcol_to_cell chain is run for symbolic host cells and stored "
-    "offsets/coordinates anywhere inside the table limits with all absolute-flag combinations (single cells and rectangles), "
-    "and the printed text is read back by an independent A1 parser; cross-table references over 2 sheets x 2 tables with "
+    "offsets/coordinates anywhere inside the table limits with all absolute-flag combinations (single cells; rectangles in "
+    "the row windows [0,100) and around 0x7FFF / 0xFFFF in the quick tier, all 10^6 rows in the thorough tier), "
+    "and the printed text is read back by an independent A1 parser; cross-table references over 3 sheets x 2+2+1 tables with "
     "symbolic names resolve to exactly the stored table.",
     "trusted: pysym; formula nodes are attribute bags; model stub for names; no header labels; outside: named (header) "
     "references, row/column spans, uuid map from archives, cache invalidation history")
 
 CLAIMED["C15"] = ("DESIGN.md §4 C15 (partial)",
-    "Border edge model only: through the real Table.set_cell_border, model.set_cell_border, cell_for_stroke and CellBorder "
-    "setters on a 3x3 table with symbolic positions: a stroke is reported by its cell and as the opposite side by the "
-    "neighbour, nothing else changes, and of two overlapping strokes (from either cell sharing the edge) the later wins. "
-    "Style attribute round trips are NOT claimed.",
-    "trusted: pysym; add_stroke reduced to its order stamp; outside: style archives (nested protobuf), images, fonts, stroke "
-    "run patching in saved layers, merged cells")
+    "Borders only: through the real Table.set_cell_border, model.set_cell_border, cell_for_stroke and CellBorder "
+    "setters on a 3x3 table (and a 4x3 table with a merged block) with symbolic positions: a stroke is reported by its cell "
+    "and as the opposite side by the neighbour, nothing else changes, and of two overlapping strokes (from either cell "
+    "sharing the edge) the later wins; the real add_stroke run patching for 2..3 strokes of every start and length along a "
+    "line of 6 cells: the stored runs, read back with 'highest order wins', show at every position the most recent stroke "
+    "covering it (saved file agrees with the open document). Style attribute round trips are NOT claimed.",
+    "trusted: pysym; stroke run / layer records as attribute bags, create_stroke reduced to its contract; outside: style "
+    "archives (nested protobuf), images, fonts, interior edges of merged blocks")
 
-NOT_APPLICABLE = {"C20": "not applicable to this technique here: the deciding behaviour lives in the C-level csv reader/writer and strtod "
-                  "(float coercion) and in whole-program document I/O (Document.save / reopen); what remains in Python "
-                  "(Converter._transform_data) is pandas-style column plumbing over those results - no kernel within reach of "
-                  "bounded symbolic execution whose verdict would say anything about CSV round trips"}
+CLAIMED["C20"] = ("DESIGN.md §4 C20 (partial)",
+    "Per-cell and bookkeeping part of the CSV import only: the real Converter._transform_data is run on cell texts of up to 3 "
+    "(thorough: 4) arbitrary Unicode characters with --whitespace and --no-header on/off: z3 shows a cell becomes a number only "
+    "when float() gives a finite value - nan / inf / infinity spellings stay text - and that text is kept character for character "
+    "(or whitespace-squeezed as documented); rows keep file order (reversed as a whole with --reverse) and one value per column "
+    "(known finding: duplicate header names). The csv module, the Document save/reopen and the cat-numbers export are NOT covered.",
+    "trusted: pysym; float(str) decided by the real float() on class-representative strings after forking every symbolic character "
+    "into its lexical class; Converter built without reading a file; outside: csv reader/writer (C level), document I/O and export, "
+    "numeric value round trip (C01), --date columns, command-line error reporting")
+
+NOT_APPLICABLE = {}
 
 
 def main():
